@@ -223,7 +223,7 @@ replay = P.replay
 
 
 # ------------------------------------------------------------------ the same numbers stored in another dtype
-from oracles import dtype_independence, merge_oracle
+from oracles import dtype_independence, merge_oracle, history_independence
 from common import np, dnp
 DTYPE_CASES = [("phase", lambda d, dim: dnp.phase(d, dim, 30.0, -45.0), "f2"),
     ("phase-arrays", lambda d, dim: dnp.phase(d, dim, np.arange(6) * 20.0 - 40.0, np.arange(6) * -15.0 + 30.0), "f2"),
@@ -236,4 +236,6 @@ def run(tier, seed, escalate=False):
     the processed axis give the result of the float64 object (a dtype the function refuses is not judged)"""
     res = _run_before_dtype(tier, seed, escalate)
     f, n = dtype_independence("C13", DTYPE_CASES, seed, dim_positions=(1,) if tier == "quick" and not escalate else (0, 1, 2))
-    return merge_oracle(res, f, n, "storage_dtype_variants")
+    res = merge_oracle(res, f, n, "storage_dtype_variants")
+    f, n = history_independence("C13", DTYPE_CASES, seed)
+    return merge_oracle(res, f, n, "call_history_cases")
